@@ -346,6 +346,15 @@ pub fn special_ext_tasks() -> Vec<ExtTask> {
         mk("out(X) :- in(X), X = 1..n+1.", false, "out(X) :- in(X), X = 1..1+n.", "input: in/1. output: out/1. input: n -> integer.", ""),
         mk("out(n+1).", false, "out(1+n).", "output: out/1. input: n -> integer.", ""),
         mk("spec: forall X (out(X) <-> in(X) and X < n$i + m$i).", true, "out(X) :- in(X), X < n+m.", "input: in/1. output: out/1. input: n -> integer. input: m -> integer.", "lemma: forall X (out(X) -> X < m$i + n$i)."),
+        // a symbolic constant named like a predicate of arity >= 1, with constants that sort between name and name__s
+        mk("out(X) :- in(X), X != in, X != in0.", false, "out(X) :- in(X), X != in0, X != in.", "input: in/1. output: out/1.", ""),
+        mk("out(X) :- in(X), X != out, X != out_, X != outZ.", false, "out(X) :- in(X), X != outZ, X != out_, X != out.", "input: in/1. output: out/1.", ""),
+        mk("aux(X) :- in(X), X < aux0. out(X) :- aux(X), X != aux.", false, "out(X) :- in(X), X != aux, X < aux0.", "input: in/1. output: out/1.", ""),
+        mk("spec: forall X (out(X) <-> in(X) and X != in and X != in1).", true, "out(X) :- in(X), X != in1, X != in.", "input: in/1. output: out/1.", ""),
+        // programs that are not tight only through a choice rule (refused on a correct tree)
+        mk("{p} :- q. q :- p.", false, "{p}. q :- p.", "output: p/0. output: q/0.", ""),
+        mk("{out(X)} :- aux(X). aux(X) :- out(X), in(X).", false, "{out(X)} :- in(X), out(X).", "input: in/1. output: out/1.", ""),
+        mk("spec: p <-> q.", true, "{p} :- q. q :- p.", "output: p/0. output: q/0.", ""),
         // one symbol at several arities with different visibility (private/public/input), clashing private copies on both sides
         mk("q(X) :- in(X). q(X,X) :- q(X).", false, "q(X) :- in(X). q(X,X) :- q(X).", "input: in/1. output: q/2.", ""),
         mk("q(X) :- in(X), X > 0. q(X,X) :- q(X).", false, "q(X) :- in(X). q(X,X) :- q(X), X > 0.", "input: in/1. output: q/2.", ""),
